@@ -1,8 +1,5 @@
-(* C10: CRC framing appends the right checksum and never accepts a wrong one (partial: the
-   burst-error theorem - a burst no longer than the width changes the checksum - is not
-   proved; the harness checks every single-bit flip and sampled/exhaustive bursts of every
-   frame against an independent bitwise CRC). *)
-From PV Require Import Base MachineInt DataModel Ser De Crc SerFlavors DeFlavors CrcFacts.
+(* C10: CRC framing appends the right checksum and never accepts a wrong one. *)
+From PV Require Import Base MachineInt DataModel Ser De Crc SerFlavors DeFlavors CrcFacts CrcBurst.
 Open Scope N_scope.
 
 (* CRC-framed output = plain encoding ++ little-endian checksum of exactly those bytes *)
@@ -41,6 +38,38 @@ Proof. exact crc_accept_pins. Qed.
 Theorem C10_crc_bound : forall (a : crc_alg) (bs : list byte), wf_alg a -> crc a bs < 2 ^ c_width a.
 Proof. exact crc_bound. Qed.
 
+(* detection.  msg_bits: the bit stream a message feeds into the register (per byte most
+   significant bit first, or least significant first for a reflected algorithm).  Two messages
+   whose streams agree outside a window of at most `width` bits and differ inside it have
+   different checksums, for every algorithm whose polynomial has a non-zero constant term
+   (alg_okb: evaluated by the correspondence on each catalogue algorithm the driver uses) *)
+Theorem C10_burst_detected : forall (a : crc_alg) (bs bs' : list byte) (p w1 w2 s : list bool),
+  wf_alg a -> N.odd (c_poly a) = true ->
+  msg_bits a bs = p ++ w1 ++ s -> msg_bits a bs' = p ++ w2 ++ s ->
+  length w1 = length w2 -> N.of_nat (length w1) <= c_width a -> w1 <> w2 ->
+  crc a bs <> crc a bs'.
+Proof. exact crc_burst. Qed.
+Theorem C10_single_bit_detected : forall (a : crc_alg) (p s : list byte) (b : byte) (j : N),
+  wf_alg a -> N.odd (c_poly a) = true -> b < 256 -> j < 8 ->
+  crc a (p ++ b :: s) <> crc a (p ++ N.lxor b (2 ^ j) :: s).
+Proof. exact crc_single_bit. Qed.
+(* hence: a frame accepted with payload c is not accepted, at the same decoded length, with a
+   payload that differs from c by a burst no longer than the width, or by one flipped bit *)
+Theorem C10_burst_rejected : forall alg nb t (c c' crcb rest : list byte) (v v' : value) (p w1 w2 s : list bool),
+  wf_alg alg -> N.odd (c_poly alg) = true -> length crcb = nb ->
+  take_from_bytes_crc alg nb t (c ++ crcb ++ rest) = Ok (v, rest) ->
+  msg_bits alg c = p ++ w1 ++ s -> msg_bits alg c' = p ++ w2 ++ s ->
+  length w1 = length w2 -> N.of_nat (length w1) <= c_width alg -> w1 <> w2 ->
+  take_from_bytes_crc alg nb t (c' ++ crcb ++ rest) <> Ok (v', rest).
+Proof. exact crc_burst_rejected. Qed.
+Theorem C10_bit_flip_rejected : forall alg nb t (p s crcb rest : list byte) (b : byte) (j : N) (v v' : value),
+  wf_alg alg -> N.odd (c_poly alg) = true -> length crcb = nb -> b < 256 -> j < 8 ->
+  take_from_bytes_crc alg nb t ((p ++ b :: s) ++ crcb ++ rest) = Ok (v, rest) ->
+  take_from_bytes_crc alg nb t ((p ++ N.lxor b (2 ^ j) :: s) ++ crcb ++ rest) <> Ok (v', rest).
+Proof. exact crc_bit_flip_rejected. Qed.
+Theorem C10_alg_ok : forall a, alg_okb a = true -> wf_alg a /\ N.odd (c_poly a) = true.
+Proof. exact alg_okb_spec. Qed.
+
 Definition crc32_iso_hdlc : crc_alg :=
   {| c_width := 32; c_poly := 79764919; c_init := 4294967295; c_refin := true; c_refout := true; c_xorout := 4294967295 |}.
 Example C10_example :
@@ -49,9 +78,20 @@ Example C10_example :
   take_from_bytes_crc crc32_iso_hdlc 4 (TInt U16) [172; 2; 54; 128; 101; 173; 7] = Ok (VInt U16 300, [7]) /\
   take_from_bytes_crc crc32_iso_hdlc 4 (TInt U16) [172; 2; 54; 128; 101; 172; 7] = Err DeserializeBadCrc.
 Proof. repeat split; vm_compute; reflexivity. Qed.
+(* the hypotheses of the detection theorems hold of a catalogue algorithm, and a flipped payload
+   bit (300 -> 301: same decoded length) is rejected *)
+Example C10_detection_example :
+  alg_okb crc32_iso_hdlc = true /\
+  take_from_bytes_crc crc32_iso_hdlc 4 (TInt U16) [173; 2; 54; 128; 101; 173; 7] = Err DeserializeBadCrc.
+Proof. split; vm_compute; reflexivity. Qed.
 
 Print Assumptions C10_output.
 Print Assumptions C10_roundtrip.
 Print Assumptions C10_accept_sound.
 Print Assumptions C10_checksum_pinned.
 Print Assumptions C10_crc_bound.
+Print Assumptions C10_burst_detected.
+Print Assumptions C10_single_bit_detected.
+Print Assumptions C10_burst_rejected.
+Print Assumptions C10_bit_flip_rejected.
+Print Assumptions C10_alg_ok.
